@@ -2,7 +2,8 @@
 (* Judges acknowledgement traces of real connections (netsim + observer)
    against AckTracker (C12).  Lines:
      init
-     arr  ep space pn ackel auth t hc     a genuine packet was handed to ep (auth: the endpoint held the keys
+     arr  ep space pn ackel auth maybe t hc  a genuine packet was handed to ep (maybe: keys were installed during the
+                                          call, by an earlier packet of the datagram; auth: the endpoint held the keys
                                           and the destination CID was one of its own; hc: handshake complete)
      tx   ep t acks spaces validated closing   return of datagrams_to_send: acks = <<space, lo, hi>> triples of all
                                           ACK ranges in the datagrams emitted, spaces = spaces of the packets emitted
@@ -23,7 +24,7 @@ StepE(x, e) ==
          LET sp == x[e.space] IN
          [x EXCEPT ![e.space] =
             [recv |-> sp.recv \cup {e.pn},
-             seen |-> IF e.auth /\ e.pn > sp.seen THEN e.pn ELSE sp.seen,
+             seen |-> IF (e.auth \/ e.maybe) /\ e.pn > sp.seen THEN e.pn ELSE sp.seen,
              owed |-> IF e.auth /\ ~x.closing /\ IsOwed(e.pn, e.ackel, sp.seen) /\ (e.space = "a" => e.hc)
                       THEN sp.owed \cup {<<e.pn, e.t>>} ELSE sp.owed]]
     [] e.ev = "tx" ->
